@@ -745,7 +745,15 @@ class EventGenerator:
         elif var.is_element:
             yield from self.convert_element(value, var, namespace)
         else:
-            yield from self.convert_data(value, var)
+            choice = None
+            if var.elements and value is not None and not isinstance(value, str):
+                # A primitive that was parsed from one of the wildcard choices
+                choice = var.find_value_choice(value, False)
+
+            if choice:
+                yield from self.convert_value(value, choice, namespace)
+            else:
+                yield from self.convert_data(value, var)
 
     def convert_derived_element(
         self, value: Any, namespace: str | None
